@@ -288,6 +288,14 @@ class Analysis:
                 continue
             ivar, N, initnode, body = info
             for pi in range(len(self.pairs)):
+                # a body that tests the cursor against its limit on every iteration is proved iteration by
+                # iteration (the fixpoint below), not by a bulk requirement in front of the loop
+                pc = self.pairs[pi]
+                if any(x.k == "IfStmt" and x.c and x.c[0] is not None and
+                       any(lvalue_text(y) == pc.cursor for y in [z for z in x.c if z is not None][0].walk() if y.k in ("DeclRefExpr", "MemberExpr")) and
+                       any(lvalue_text(y) == pc.limit for y in [z for z in x.c if z is not None][0].walk() if y.k in ("DeclRefExpr", "MemberExpr"))
+                       for x in body.walk()):
+                    continue
                 adv = advance_of(body, pi)
                 if adv is None:
                     continue
@@ -574,6 +582,12 @@ class Analysis:
                             break
                 if not keep:
                     st = self.modify_var(st, t)
+                # v = w where `avail >= k + w` is known: the same holds for v
+                if r.k in ("DeclRefExpr", "MemberExpr") and r.cv is None:
+                    Tr, Tl = self.term(r), self.term(e.c[0])
+                    for pi in st[0]:
+                        if Tr in st[0][pi]:
+                            st[0][pi][Tl] = max(st[0][pi][Tr], st[0][pi].get(Tl, -10 ** 9))
         elif k == "CallExpr":
             for a in e.args():
                 x = a.strip_casts()
@@ -684,6 +698,15 @@ class Analysis:
                             # the variable was already decremented by transfer: fact is k+1 + new
                             kk = facts[pi][T] + (lo - 1)
                         facts[pi][None] = max(facts[pi].get(None, 0), kk)
+        # term vs term: on an edge where l <= r holds, `avail >= k + r` gives `avail >= k + l`
+        for (l, r, o) in ((L, R, op), (R, L, flip[op])):
+            if l.cv is not None or r.cv is not None or l.k not in ("DeclRefExpr", "MemberExpr") or r.k not in ("DeclRefExpr", "MemberExpr"):
+                continue
+            if (o in ("<=", "<") and truth) or (o in (">", ">=") and not truth) or (o == "==" and truth):
+                Tl, Tr = self.term(l), self.term(r)
+                for pi in facts:
+                    if Tr in facts[pi] and facts[pi][Tr] >= facts[pi].get(Tl, -10 ** 9):
+                        facts[pi][Tl] = facts[pi][Tr]
         # index facts  i < N
         for (l, r, o) in ((L, R, op), (R, L, flip[op])):
             if ((o == "<" and truth) or (o == ">=" and not truth)) and l.k == "DeclRefExpr" and r.cv is None:
